@@ -61,6 +61,11 @@ static void body(const Line& t, Out& o, long& retained) {
     const int arena = 1 + (int)(((long)t.at(1) % 3 + 3) % 3);
     std::unique_ptr<Obj> p(make((int)t.at(2), (long)t.at(3), (long)t.at(4), arena));
     regs[(long)t.at(1)] = std::move(p);
+    if ((int)t.at(2) == 3) {
+      // REQ: successive section sizes nearest_even(k / sqrt(2)^j) as the compactors compute them in float arithmetic (model input)
+      float ssr = (float)(long)t.at(3);
+      for (int j = 0; j < 40; ++j) { ssr = ssr / sqrtf(2); const uint32_t ne = req_compactor<Item, std::less<Item>, talloc<Item>>::nearest_even(ssr); o.E((I)ne); if (ne < 4) break; }
+    }
     retained = get(t.at(1)).retained(); break; }
   case 2: { Obj& s = get(t.at(1)); s.update((int64_t)t.at(2), (int64_t)t.at(3), t.at(4) != 0, o); retained = s.retained(); break; }
   case 3: { need_free(t.at(1)); Obj& s = get(t.at(2)); { std::unique_ptr<Obj> p(s.copy()); regs[(long)t.at(1)] = std::move(p); } retained = get(t.at(1)).retained(); break; }
